@@ -453,6 +453,18 @@ class Explorer:
                             dty = self.body.local_ty(t['dest']['local'])
                         if dty is not None and dty.get('k') == 'int':
                             res = ('const', args[0][1], dty['s'])
+                    # checked conversions of integer constants and unwrap of a known Ok/Some
+                    if len(args) == 1 and args[0][0] == 'const' and isinstance(args[0][1], int) and not isinstance(args[0][1], bool) \
+                            and (name.endswith('::try_into') or name.endswith('::try_from')) and not t['dest'].get('proj'):
+                        dty = self.body.local_ty(t['dest']['local'])
+                        if dty.get('path') == 'std::result::Result' and dty.get('args') and dty['args'][0].get('k') == 'int':
+                            ity = dty['args'][0]['s']
+                            r = INT_RANGES.get(ity)
+                            if r and r[0] <= args[0][1] <= r[1]:
+                                res = ('agg', ('adt', 'std::result::Result', 'Ok', 0), (('const', args[0][1], ity),))
+                    if len(args) >= 1 and args[0][0] == 'agg' and isinstance(args[0][1], tuple) and args[0][1][0] == 'adt' \
+                            and args[0][1][2] in ('Ok', 'Some') and args[0][2] and (name.endswith('::unwrap') or name.endswith('::expect')):
+                        res = args[0][2][0]
                     path.events.append(('call', name, args, bb, res, t, len(path.conds)))
                     # effects through &mut arguments
                     for a_op, a in zip(t['args'], args):
